@@ -50,16 +50,17 @@ import (
 const (
 	nWork = 6 // workload addresses: container 0, object 0..5
 
+	// Fingerprints of the three defect classes this check found (all fixed in
+	// /repo: c32fca5, 315089e, b6c8119; see known_findings.json). A recurrence
+	// is classified in the failure message by the same names.
 	fpReput = "C17:reput-double-count"
 	fpLeak  = "C17:flushobjs-leak-on-error"
 	fpWin   = "C17:batch-window-off-by-one"
 )
 
-// excl says which known-finding classes are excluded by construction.
-type excl struct{ reput, leak, win bool }
 
 type step struct {
-	Op string // put cput del adv outage failon failoff block release probe reopen ro rw flush
+	Op string // put cput del adv outage pout failon failoff block release probe reopen ro rw flush
 	A  []int
 	N  int
 	B  bool
@@ -73,6 +74,8 @@ func (s step) String() string {
 		return fmt.Sprintf("cput%v", s.A)
 	case "adv", "outage":
 		return fmt.Sprintf("%s(%ds)", s.Op, s.N)
+	case "pout":
+		return fmt.Sprintf("pout(%v,%ds)", s.A, s.N)
 	case "probe":
 		return fmt.Sprintf("probe(keep=%v)", s.B)
 	}
@@ -95,31 +98,16 @@ func reach(n int) int {
 	return n
 }
 
-func genCfg(t *rapid.T, uniformClass, oneBatch bool) cfg {
+func genCfg(t *rapid.T) cfg {
 	var c cfg
 	c.Thr = rapid.SampledFrom([]int{300, 600}).Draw(t, "thr")
 	c.BatchCount = rapid.SampledFrom([]int{2, 3, 128}).Draw(t, "bcount")
 	c.BatchSize = rapid.SampledFrom([]int{0, 2*c.Thr + 100}).Draw(t, "bsize")
-	if oneBatch {
-		// known batch-window class excluded by construction: a scheduler round
-		// never needs a second hand-over (no count/size limit hit, <= 1 big object)
-		c.BatchCount, c.BatchSize = 128, 0
-	}
-	bigs := 0
+
 	c.Workers = rapid.SampledFrom([]int{1, 2, 20}).Draw(t, "workers")
 	c.M = rapid.IntRange(1200, 9000).Draw(t, "M")
-	class := rapid.IntRange(0, 1).Draw(t, "class")
 	for i := range c.Sizes {
-		k := class
-		if !uniformClass {
-			k = rapid.IntRange(0, 1).Draw(t, "k")
-		}
-		if oneBatch && k == 1 {
-			if bigs > 0 || uniformClass {
-				k = 0
-			}
-			bigs++
-		}
+		k := rapid.IntRange(0, 1).Draw(t, "k")
 		if k == 0 { // small: <= thr (batched)
 			c.Sizes[i] = rapid.OneOf(rapid.IntRange(minObjSize, c.Thr), rapid.Just(c.Thr), rapid.Just(c.Thr-1)).Draw(t, "size")
 			c.Sizes[i] = reach(c.Sizes[i])
@@ -133,75 +121,42 @@ func genCfg(t *rapid.T, uniformClass, oneBatch bool) cfg {
 	return c
 }
 
-func genSteps(t *rapid.T, faulty, noReput, noKeep bool, rec *ev.Recorder) []step {
+func genSteps(t *rapid.T, faulty bool) []step {
 	n := rapid.IntRange(4, 22).Draw(t, "nsteps")
 	ops := []string{"put", "put", "put", "put", "cput", "del", "adv", "adv", "adv", "block", "release", "probe", "probe", "reopen", "ro", "rw", "flush"}
 	if faulty {
-		ops = append(ops, "outage", "outage", "outage", "failon", "failoff")
+		ops = append(ops, "outage", "outage", "pout", "pout", "failon", "failoff")
 	}
-	var (
-		res  []step
-		used [nWork]bool
-	)
-	pick := func(lbl string) (int, bool) {
-		i := rapid.IntRange(0, nWork-1).Draw(t, lbl)
-		if noReput && used[i] {
-			// the known double-count class is excluded by construction:
-			// take an unused address instead, or drop the step
-			rec.Excluded(1)
-			for j := range used {
-				if !used[j] {
-					used[j] = true
-					return j, true
-				}
-			}
-			return 0, false
-		}
-		used[i] = true
-		return i, true
-	}
+	var res []step
+	pick := func(lbl string) int { return rapid.IntRange(0, nWork-1).Draw(t, lbl) }
 	for len(res) < n {
 		s := step{Op: rapid.SampledFrom(ops).Draw(t, "op")}
 		switch s.Op {
 		case "put":
-			i, ok := pick("i")
-			if !ok {
-				s = step{Op: "adv", N: 1}
-				break
-			}
-			s.A = []int{i}
+			s.A = []int{pick("i")}
 		case "del":
 			s.A = []int{rapid.IntRange(0, nWork-1).Draw(t, "i")}
 		case "cput":
 			k := rapid.IntRange(2, 4).Draw(t, "k")
 			for j := 0; j < k; j++ {
-				i, ok := pick("i")
-				if ok && !(noReput && contains(s.A, i)) {
-					s.A = append(s.A, i)
-				}
-			}
-			if len(s.A) == 0 {
-				s = step{Op: "adv", N: 1}
+				s.A = append(s.A, pick("i")) // duplicates on purpose
 			}
 		case "adv":
 			s.N = rapid.OneOf(rapid.IntRange(1, 3), rapid.IntRange(1, 12), rapid.Just(25)).Draw(t, "n")
+		case "pout": // puts immediately followed by an outage: failures hit a multi-address round
+			k := rapid.IntRange(2, 3).Draw(t, "k")
+			for j := 0; j < k; j++ {
+				s.A = append(s.A, pick("i"))
+			}
+			s.N = rapid.IntRange(11, 60).Draw(t, "n")
 		case "outage":
 			s.N = rapid.OneOf(rapid.IntRange(1, 12), rapid.IntRange(13, 60), rapid.Just(90)).Draw(t, "n")
 		case "probe":
-			s.B = rapid.Bool().Draw(t, "keep") && !noKeep
+			s.B = rapid.Bool().Draw(t, "keep")
 		}
 		res = append(res, s)
 	}
 	return res
-}
-
-func contains(a []int, v int) bool {
-	for _, x := range a {
-		if x == v {
-			return true
-		}
-	}
-	return false
 }
 
 // faults is the state shared with the faultstore hooks (called from flush
@@ -516,10 +471,6 @@ func (e *env) advance(sec int) {
 // It returns true if the case must stop (known finding).
 func (e *env) violationB(over bool, format string, a ...any) bool {
 	if over && e.reput {
-		e.label("drift-hit")
-		if e.rec.Known(fpReput) {
-			return true
-		}
 		e.fatalf("[%s] %s (an address was put again while this cache instance was alive: counters.Add adds the size again)", fpReput, fmt.Sprintf(format, a...))
 	}
 	e.fatalf(format, a...)
@@ -563,6 +514,10 @@ func (e *env) seqPut(what string, o obj) (admitted, stop bool) {
 
 func short(a oid.Address) string {
 	c, i := uni.Index(a)
+	if i < 0 {
+		id := a.Object()
+		return fmt.Sprintf("c%d/x%d", c, int(id[30])<<8|int(id[31]))
+	}
 	return fmt.Sprintf("c%d/o%d", c, i)
 }
 
@@ -572,11 +527,9 @@ func (e *env) probe(keep bool) (stop bool) {
 		e.label("probe-skipped-ro")
 		return false
 	}
-	if e.probes >= 24 {
-		e.label("probe-skipped-pool")
-		return false
-	}
-	pc, pi := 2-e.probes/12, e.probes%12
+	// probe objects: container 2, object IDs outside the universe (never
+	// shared with a workload address), a fresh one per probe
+	pc, pi := 2, 100+e.probes
 	e.probes++
 	_, c := e.measure()
 	rem := e.c.M - c
@@ -643,17 +596,25 @@ func (e *env) setMode(m mode.Mode) {
 
 func (e *env) run(s step) (stop bool) {
 	switch s.Op {
-	case "put":
-		o := e.objs[s.A[0]]
-		adm, stop := e.seqPut("put", o)
-		if stop {
-			return true
-		}
-		if adm {
-			if _, was := e.live[o.addr]; was {
-				e.label("reput")
+	case "put", "pout":
+		for _, i := range s.A {
+			o := e.objs[i]
+			adm, stop := e.seqPut("put", o)
+			if stop {
+				return true
 			}
-			e.live[o.addr] = o.bin
+			if adm {
+				if _, was := e.live[o.addr]; was {
+					e.label("reput")
+				}
+				e.live[o.addr] = o.bin
+			}
+		}
+		if s.Op == "pout" {
+			e.setFailing(true)
+			e.advance(s.N)
+			e.setFailing(false)
+			e.logf("outage %ds over", s.N)
 		}
 	case "cput":
 		errs := make([]error, len(s.A))
@@ -792,9 +753,6 @@ func (e *env) checkDrained(m map[string]int64) (stop bool) {
 			if m2 := e.drain(); len(m2) > 0 {
 				e.fatalf("%s; and a fresh cache instance does not flush them either: [%s]", msg, listing(m2))
 			}
-			if e.rec.Known(fp) {
-				return true
-			}
 			e.fatalf("[%s] %s; a fresh cache instance over the same directory flushes them, so the address was left in the scheduler's in-flight set (flushObjs): %s", fp, msg, why)
 		}
 		e.fatalf("%s", msg)
@@ -814,23 +772,10 @@ func (e *env) checkDrained(m map[string]int64) (stop bool) {
 func TestC17(t *testing.T) {
 	rec := ev.New("C17", "writecache")
 	defer rec.Flush()
-	reputOpen := ev.IsOpen("C17", fpReput)
-	leakOpen := ev.IsOpen("C17", fpLeak)
-	winOpen := ev.IsOpen("C17", fpWin)
 	bubble.Check(t, func(t *rapid.T) {
 		faulty := rapid.IntRange(0, 2).Draw(t, "faulty") > 0
-		uniform := false
-		if faulty && leakOpen {
-			// known leak class (small batch followed by a big object under a
-			// failing storage) excluded by construction: one size class only
-			uniform = true
-			rec.Excluded(1)
-		}
-		if winOpen {
-			rec.Excluded(1)
-		}
-		c := genCfg(t, uniform, winOpen)
-		steps := genSteps(t, faulty, reputOpen, winOpen, rec)
+		c := genCfg(t)
+		steps := genSteps(t, faulty)
 
 		dir, err := os.MkdirTemp("", "c17")
 		if err != nil {
@@ -917,7 +862,7 @@ func TestC17(t *testing.T) {
 		// Oracle B after a restart with content: one fresh object stays in the
 		// cache (no tick between put and close), the new instance recounts.
 		{
-			z, _, zb := objOfSize(0, 11, reach(minObjSize+rapid.IntRange(0, 300-minObjSize).Draw(t, "zsize")))
+			z, _, zb := objOfSize(0, 99, reach(minObjSize+rapid.IntRange(0, 300-minObjSize).Draw(t, "zsize")))
 			if len(zb) <= e.c.M {
 				adm, stop := e.seqPut("put-before-restart", obj{z, zb})
 				if stop {
